@@ -51,8 +51,15 @@ func zzNewWatcher(r *simcore.Run, p *chansim.Party, onBreach func(*lnwallet.Brea
 		EpochChan: make(chan *chainntnfs.BlockEpoch, 1),
 		ConfChan:  make(chan *chainntnfs.TxConfirmation, 1),
 	}
+	// Half of the watchers get the channel record a real chain watcher has:
+	// the one loaded at start-up (aged), not a freshly loaded one.
+	st := p.Chan.State()
+	if p.Aged != nil && r.Draw(2) == 1 {
+		st = p.Aged
+		r.Count("probe_watcher_with_aged_handle")
+	}
 	w, err := newChainWatcher(chainWatcherConfig{
-		chanState:           p.Chan.State(),
+		chanState:           st,
 		notifier:            notifier,
 		signer:              p.Signer,
 		contractBreach:      onBreach,
